@@ -1,4 +1,5 @@
 import AdeptProofs.Lemmas.Views
+import AdeptProofs.Lemmas.ViewsElem
 import AdeptProofs.Lemmas.IndexedViews
 /-!
 # C06 — views address exactly the elements their index expressions denote
@@ -692,6 +693,132 @@ theorem C06_stride_expr_addr {base off : Int} {d : Nat} {b e s : EndExpr} {check
   have := (haddr [i] (by rw [hd']; rfl)).2
   simpa [expandSlice] using this
 
+/-! ## element access: `A(i0,…,i_{R-1})` with only scalar arguments
+
+The element accessors are separate functions in the C++: one per rank 1…7 and per const-ness in Array.h (sum of
+`get_index_with_len(i_k,dimensions_[k])*offset_[k]`, transcription `elemOffset` / `elemAccess`) and again in
+FixedArray.h (Horner form over the static extents, transcription `fixedElemGo` / `fixedElemAccess`).  The statements
+below are for lists of any length: every rank, every position.  `resolveAll dims es` is the index list in which
+argument `k` (an `int` or `end` arithmetic) is resolved against the length of dimension `k` — its own dimension. -/
+
+/-- Position by position: component `k` of the indices an element access uses is argument `k` resolved against the
+    length of dimension `k` (not of any other dimension). -/
+theorem C06_elem_own_dimension (dims : List Nat) (es : List EndExpr) (k : Nat) (hd : k < dims.length) (he : k < es.length) :
+    (resolveAll dims es)[k]? = some ((es[k]).resolve (dims[k])) :=
+  resolveAll_getElem dims es k hd he
+
+/-- `Array::operator()(i0,…)` (both builds, const or not, any rank): a successful access refers to the element at
+    offset `base + Σ resolve(i_k, dim_k)·offset_k`, i.e. to `addr v (resolveAll v.dims es)`; the call had as many
+    arguments as the array has dimensions; in the bounds-checked build every resolved index is inside its dimension. -/
+theorem C06_elem_addr {v : View} {es : List EndExpr} {checked : Bool} {a : Int} (h : elemAccess v es checked = .ok a) :
+    es.length = v.dims.length ∧ a = addr v (resolveAll v.dims es) ∧
+      (checked = true → InRange (resolveAll v.dims es) v.dims) := by
+  unfold elemAccess at h
+  split at h
+  · cases h
+  · cases ho : elemOffset checked v.dims v.strides es with
+    | error x => simp [ho, bind, Except.bind] at h
+    | ok o =>
+      simp only [ho, bind, Except.bind] at h
+      cases h
+      obtain ⟨_, h2, h3, h4⟩ := elemOffset_ok checked _ _ _ _ ho
+      exact ⟨h2.symm, by simp [addr, h3], h4⟩
+
+/-- The default build never raises: whatever the indices, the access goes to `addr v (resolveAll …)` (which is an
+    element of the array exactly when the indices are in range: the caller's obligation in that build). -/
+theorem C06_elem_unchecked_total {v : View} {es : List EndExpr} (hwf : v.WF) (hr : v.dims ≠ [])
+    (hlen : es.length = v.dims.length) :
+    elemAccess v es false = .ok (addr v (resolveAll v.dims es)) := by
+  unfold elemAccess
+  simp only [hr, if_false, elemOffset_unchecked v.dims v.strides es hwf hlen.symm, bind, Except.bind, addr]
+
+/-- `-DADEPT_BOUNDS_CHECKING`: the access succeeds iff EVERY index, resolved against its own dimension, is in
+    `0 … dim_k-1`, and raises `index_out_of_bounds` iff some index is not — judged against that dimension. -/
+theorem C06_elem_checked_iff {v : View} {es : List EndExpr} (hwf : v.WF) (hr : v.dims ≠ [])
+    (hlen : es.length = v.dims.length) :
+    (elemAccess v es true = .ok (addr v (resolveAll v.dims es)) ↔ InRange (resolveAll v.dims es) v.dims) ∧
+    (elemAccess v es true = .error .index_out_of_bounds ↔ ¬ InRange (resolveAll v.dims es) v.dims) := by
+  by_cases hin : InRange (resolveAll v.dims es) v.dims
+  · have : elemAccess v es true = .ok (addr v (resolveAll v.dims es)) := by
+      unfold elemAccess
+      simp only [hr, if_false, elemOffset_checked_ok v.dims v.strides es hwf hlen.symm hin, bind, Except.bind, addr]
+    exact ⟨⟨fun _ => hin, fun _ => this⟩, ⟨fun h => (by rw [this] at h; cases h), fun h => absurd hin h⟩⟩
+  · have : elemAccess v es true = .error .index_out_of_bounds := by
+      unfold elemAccess
+      simp only [hr, if_false, elemOffset_checked_err v.dims v.strides es hwf hlen.symm hin, bind, Except.bind]
+    exact ⟨⟨fun h => (by rw [this] at h; cases h), fun h => absurd h hin⟩, ⟨fun _ => hin, fun _ => this⟩⟩
+
+/-- Element access is the all-scalar case of `operator()`: it refers to the element the rank-0 view
+    `slice v [at i0, …]` denotes, so the composition theorems (`C06_compose_addr`, `C06_within_parent`, …) apply to a
+    chain of view-forming operations ending in an element access. -/
+theorem C06_elem_is_rank0_slice (v : View) (es : List EndExpr) (checked : Bool) (hr : v.dims ≠ []) :
+    slice v (es.map Ix.at) checked = (elemAccess v es checked).map elemView := by
+  unfold slice sliceRaw elemAccess
+  rw [sliceGo_all_scalar]
+  simp only [hr, if_false]
+  cases elemOffset checked v.dims v.strides es with
+  | error x => rfl
+  | ok o => rfl
+
+/-- `FixedArray::operator()(i0,…)` (Horner form over the static extents; both builds, const or not, any rank): a
+    successful access refers to the element of the packed row-major array with the indices `resolveAll dims es` — the
+    same element `Array`'s accessor gives on a fresh row-major array of these extents —, and it lies inside the
+    FixedArray's own storage when the indices are in range (bounds-checked build: always). -/
+theorem C06_fixed_elem_addr {dims : List Nat} {es : List EndExpr} {checked : Bool} {a : Int}
+    (h : fixedElemAccess dims es checked = .ok a) :
+    es.length = dims.length ∧ a = addr (fresh true dims) (resolveAll dims es) ∧
+      (checked = true → InRange (resolveAll dims es) dims ∧ 0 ≤ a ∧ a < prodInt (dims.map Int.ofNat)) := by
+  unfold fixedElemAccess at h
+  split at h
+  · cases h
+  · obtain ⟨h1, h2, h3⟩ := fixedElemGo_ok checked _ _ _ _ h
+    have hl := resolveAll_length dims es h1
+    have ha : a = addr (fresh true dims) (resolveAll dims es) := by
+      rw [h2, horner_lin dims _ 0 hl]
+      simp only [addr, fresh, if_true, dot_packRowMajor dims _ hl]
+      omega
+    refine ⟨h1.symm, ha, fun hc => ⟨h3 hc, ?_⟩⟩
+    rw [ha]
+    exact fresh_addr_bounds true dims _ (h3 hc)
+
+/-- FixedArray, default build: never raises. -/
+theorem C06_fixed_elem_unchecked_total {dims : List Nat} {es : List EndExpr} (hr : dims ≠ []) (hlen : es.length = dims.length) :
+    fixedElemAccess dims es false = .ok (addr (fresh true dims) (resolveAll dims es)) := by
+  unfold fixedElemAccess
+  simp only [hr, if_false, fixedElemGo_unchecked dims es 0 hlen.symm]
+  have hl := resolveAll_length dims es hlen.symm
+  rw [horner_lin dims _ 0 hl]
+  simp only [addr, fresh, if_true, dot_packRowMajor dims _ hl]
+  congr 1
+  omega
+
+/-- FixedArray, `-DADEPT_BOUNDS_CHECKING`: raises `index_out_of_bounds` iff some index, resolved against ITS OWN static
+    extent `J_k`, is outside `0 … J_k-1`; succeeds otherwise. -/
+theorem C06_fixed_elem_checked_iff {dims : List Nat} {es : List EndExpr} (hr : dims ≠ []) (hlen : es.length = dims.length) :
+    (fixedElemAccess dims es true = .error .index_out_of_bounds ↔ ¬ InRange (resolveAll dims es) dims) ∧
+    ((∃ a, fixedElemAccess dims es true = .ok a) ↔ InRange (resolveAll dims es) dims) := by
+  by_cases hin : InRange (resolveAll dims es) dims
+  · have : fixedElemAccess dims es true = .ok (horner 0 dims (resolveAll dims es)) := by
+      unfold fixedElemAccess
+      simp only [hr, if_false, fixedElemGo_checked_ok dims es 0 hlen.symm hin]
+    exact ⟨⟨fun h => (by rw [this] at h; cases h), fun h => absurd hin h⟩, ⟨fun _ => hin, fun _ => ⟨_, this⟩⟩⟩
+  · have : fixedElemAccess dims es true = .error .index_out_of_bounds := by
+      unfold fixedElemAccess
+      simp only [hr, if_false, fixedElemGo_checked_err dims es 0 hlen.symm hin]
+    exact ⟨⟨fun _ => hin, fun _ => this⟩, ⟨fun ⟨a, h⟩ => (by rw [this] at h; cases h), fun h => absurd h hin⟩⟩
+
+/-- `permute(i0,i1,…)` (separate arguments) and `permute(const ExpressionSize<Rank>&)` address exactly what
+    `permute(const Index*)` does: a successful call of the former IS a successful `permute` with the same list. -/
+theorem C06_permute_args_addr {v w : View} {p : List Int} (h : permuteArgs v p = .ok w) :
+    permute v p = .ok w ∧ ∀ x ∈ p, x ≠ -1 := by
+  unfold permuteArgs at h
+  split at h
+  · cases h
+  · rename_i hn
+    refine ⟨h, fun x hx hx1 => hn ?_⟩
+    simp only [List.any_eq_true, beq_iff_eq]
+    exact ⟨x, hx, hx1⟩
+
 /-! ## non-vacuity
 
 A 3×4×5 parent; `A(1, stride(end,0,-1), range(1,end))`, then `T`, then `diag_vector(-1)`: the run
@@ -756,5 +883,17 @@ example : slice (fresh true [10]) [.stride (.bin .div .last (.lit 3)) .last (.bi
 example : ((VExpr.bin .sub (.lit 9) .idx).entries [1, 3, 0]).map (EndExpr.resolve 10) = [8, 6, 9] := by decide
 example : (EndExpr.bin .div (.lit 3) (.bin .sub .last (.lit 3))).defined 4 = false := by decide
 example : (0 : Int) < 2 ∧ (2 : Int) < ((10 : Nat) : Int) - 1 := by decide
+
+/- element access: a 2×3×4 array, `A(0,end,1)`: the middle `end` is 2 (its own dimension has length 3), the element is
+   cell 9; resolved against the length of the LAST dimension it would be 3 — cell 13, and in the bounds-checked build an
+   error.  `A(0,3,1)` is rejected by the bounds-checked build although 3 is a valid index of the last dimension. -/
+example : elemAccess (fresh true [2, 3, 4]) [.lit 0, .last, .lit 1] true = .ok 9 := by decide
+example : fixedElemAccess [2, 3, 4] [.lit 0, .last, .lit 1] false = .ok 9 := by decide
+example : fixedElemAccess [2, 3, 4] [.lit 0, .lit 3, .lit 1] true = .error .index_out_of_bounds := by decide
+example : ¬ InRange (resolveAll [2, 3, 4] [.lit 0, .lit 3, .lit 1]) [2, 3, 4] := by simp [resolveAll, InRange, EndExpr.resolve]
+example : InRange (resolveAll [2, 3, 4] [.lit 0, .last, .lit 1]) [2, 3, 4] := by simp [resolveAll, InRange, EndExpr.resolve]
+example : fixedElemAccess [3, 2, 5, 4] [.fromEnd 0, .bin .div .last (.lit 2), .bin .sub (.lit 7) .last, .last] true = .ok 95 := by decide
+example : permuteArgs (fresh true [2, 3, 4]) [2, 0, 1] = .ok ⟨0, [4, 2, 3], [1, 12, 4]⟩ := by decide
+example : permuteArgs (fresh true [2, 3]) [1, -1] = .error .invalid_dimension := by decide
 
 end Adept.Views
